@@ -10,8 +10,9 @@ package main
 //  D  direct scans sharing one chunk cache, with a reset pending       model op 1311, oracle op 1320
 //  E  sliceChunks                                                      model op 1321
 //  F  both mailbox slots occupied before the loop wakes up             model op 1312
-//  G  runtime: concurrent pusher, random Reset timing; every tapped merger must be the sequential
+//  G  runtime: concurrent pusher(s), random Reset timing; every tapped merger must be the sequential
 //     filter of one of the posted requests (thorough tier: the same under the race detector)
+//  J/K/L  several pushers at once (goroutines, the real directory walker, the real fzf walking a tree): c13load.go
 
 import (
 	"bytes"
@@ -80,6 +81,8 @@ type c13Case struct {
 	Iters    int          `json:"iters,omitempty"`
 	TextMem  *c13TextCase `json:"textmem,omitempty"` // kind textmem (c13display.go)
 	Disp     *c13DispCase `json:"disp,omitempty"`    // kind display (c13display.go)
+	Load     *c13LoadCase `json:"load,omitempty"`    // kinds pushers | walk | walksession (c13load.go)
+	Pushers  int          `json:"npushers,omitempty"` // stress: the lines are pushed by this many goroutines (0 = one)
 }
 
 var c13Once sync.Once
@@ -1151,6 +1154,7 @@ type c13StressResult struct {
 	Unmatched  string `json:"unmatched,omitempty"`
 	LastOK     bool   `json:"last_ok"`
 	LastDetail string `json:"last_detail,omitempty"`
+	Numbering  string `json:"numbering,omitempty"`
 }
 
 func c13StressOnce(cs c13Case) c13StressResult {
@@ -1169,16 +1173,27 @@ func c13StressOnce(cs c13Case) c13StressResult {
 	lines := c13GenLines(r.Next(), total)
 	pr := r.Fork()
 	var wg sync.WaitGroup
-	wg.Add(1)
-	go func() { // the reader
-		defer wg.Done()
-		for i, l := range lines {
-			e.cl.Push([]byte(l))
-			if i%Pick(pr, []int{7, 31, 100}) == 0 {
-				time.Sleep(time.Duration(pr.Intn(200)) * time.Microsecond)
-			}
+	pushers := cs.Pushers
+	if pushers < 1 {
+		pushers = 1
+	}
+	for p := 0; p < pushers; p++ { // the reader; the directory walker has several of them
+		prp := pr
+		if pushers > 1 {
+			prp = pr.Fork()
 		}
-	}()
+		part := lines[p*total/pushers : (p+1)*total/pushers]
+		wg.Add(1)
+		go func(part []string, pr *RNG) {
+			defer wg.Done()
+			for i, l := range part {
+				e.cl.Push([]byte(l))
+				if i%Pick(pr, []int{7, 31, 100}) == 0 {
+					time.Sleep(time.Duration(pr.Intn(200)) * time.Microsecond)
+				}
+			}
+		}(part, prp)
+	}
 	type sreq struct {
 		chunks       []*fzf.Chunk
 		pat          *fzf.Pattern
@@ -1293,6 +1308,14 @@ func c13StressOnce(cs c13Case) c13StressResult {
 			break
 		}
 	}
+	// what the searches were started on: the i-th item of a snapshot has index first+i, whoever pushed it
+	for k, rq := range reqs {
+		idx, _, _ := c13ReadSnap(rq.chunks)
+		if bad := c13Consecutive(idx); bad >= 0 {
+			res.Numbering = fmt.Sprintf("the snapshot of request #%d (%d items): the item at position %d has index %d, its predecessor %d", k, len(idx), bad, idx[bad], idx[bad-1])
+			break
+		}
+	}
 	return res
 }
 
@@ -1308,6 +1331,12 @@ func c13Stress(c *Ctx, cs c13Case) {
 	if res.Unmatched != "" {
 		rep.Disagreement(Disagreement{Kind: "spec", Name: "publish_matches_request(concurrent)", Input: cs, Impl: res.Unmatched, Expect: "filter+sort of the request's own snapshot"})
 	}
+	if res.Numbering != "" {
+		rep.Disagreement(Disagreement{Kind: "spec", Name: "item_indexes_number_positions(concurrent)", Input: cs, Impl: res.Numbering, Expect: "every item's index is its predecessor's + 1"})
+	}
+	if cs.Pushers > 1 {
+		rep.Count("stress:several_pushers")
+	}
 	if !res.LastOK {
 		// liveness: retried twice before being reported (DESIGN 1.4)
 		for i := 0; i < 2 && !res.LastOK; i++ {
@@ -1321,7 +1350,7 @@ func c13Stress(c *Ctx, cs c13Case) {
 
 func c13GenStress(r *RNG, iters int) c13Case {
 	return c13Case{Kind: "stress", Fuzzy: true, Extended: true, Tac: r.Chance(1, 4), Sort: r.Chance(4, 5),
-		Parts: Pick(r, []int{1, 2, 3, 5, 8, 32}), Seed: r.Next(), Iters: iters}
+		Parts: Pick(r, []int{1, 2, 3, 5, 8, 32}), Seed: r.Next(), Iters: iters, Pushers: Pick(r, []int{1, 1, 2, 4, 8})}
 }
 
 // the same stress under the race detector: a separate -race build of this harness, run as a child
@@ -1339,7 +1368,8 @@ func c13RaceChild(c *Ctx) {
 		return
 	}
 	outf := filepath.Join(c.Work, "race_child.json")
-	child := exec.Command(bin, "-prop", "C13", "-tier", c.Tier, "-seed", fmt.Sprint(c.Seed), "-out", outf, "-scale", fmt.Sprint(c.Scale))
+	child := exec.Command(bin, "-prop", "C13", "-tier", c.Tier, "-seed", fmt.Sprint(c.Seed), "-out", outf, "-scale", fmt.Sprint(c.Scale),
+		"-work", filepath.Join(c.Work, "racechild"))
 	child.Env = append(env, "VERIF_C13_CHILD=1", "GORACE=halt_on_error=0 exitcode=66")
 	var buf bytes.Buffer
 	child.Stdout = &buf
@@ -1358,21 +1388,42 @@ func c13RaceChild(c *Ctx) {
 			d.Name += " [race build]"
 			c.Rep.Disagreement(d)
 		}
-	} else if races == 0 {
-		c.Rep.Disagreement(Disagreement{Kind: "corr", Name: "corr:C13.race_child_failed", Input: "race child", Impl: c13Head(log, 2000), Expect: "a report"})
+	} else if i := strings.Index(log, "\npanic: "); races == 0 || i >= 0 {
+		// no report at all, or the child died (a panic is not a race report: it must not hide behind one)
+		if i < 0 {
+			i = 0
+		}
+		c.Rep.Disagreement(Disagreement{Kind: "corr", Name: "corr:C13.race_child_failed", Input: "race child", Impl: c13Head(log[i:], 2000), Expect: "a report"})
 	}
 	if races > 0 {
 		// one report per "WARNING: DATA RACE" block; R1 (narrow): one side is the unsynchronised memo in util.Chars.TrimLength
-		blocks := strings.Split(log, "WARNING: DATA RACE")[1:]
+		parts := strings.Split(log, "WARNING: DATA RACE")
+		blocks := parts[1:]
 		other := ""
 		r1 := ""
-		for _, b := range blocks {
+		var otherCase interface{} = c13Case{Kind: "stress", Seed: c.Seed}
+		var announced interface{}
+		for bi, b := range blocks {
+			// the case announced last before this report (the load streams announce theirs)
+			if i := strings.LastIndex(parts[bi], "\nC13CASE "); i >= 0 {
+				line := parts[bi][i+len("\nC13CASE "):]
+				if j := strings.IndexByte(line, '\n'); j >= 0 {
+					line = line[:j]
+				}
+				var acs c13Case
+				if json.Unmarshal([]byte(line), &acs) == nil && acs.Kind != "" {
+					announced = acs
+				}
+			}
 			if strings.Contains(b, "util.(*Chars).TrimLength()") {
 				if r1 == "" {
 					r1 = b
 				}
 			} else if other == "" {
 				other = b
+				if announced != nil {
+					otherCase = announced
+				}
 			}
 		}
 		if r1 != "" {
@@ -1380,7 +1431,7 @@ func c13RaceChild(c *Ctx) {
 				Impl: c13Head("WARNING: DATA RACE"+r1, 6000), Expect: "no data race reported", Known: "R1"})
 		}
 		if other != "" {
-			c.Rep.Disagreement(Disagreement{Kind: "spec", Name: "race_detector_clean", Input: c13Case{Kind: "stress", Seed: c.Seed},
+			c.Rep.Disagreement(Disagreement{Kind: "spec", Name: "race_detector_clean", Input: otherCase,
 				Impl: c13Head("WARNING: DATA RACE"+other, 6000), Expect: "no data race reported"})
 		}
 	}
@@ -1413,13 +1464,22 @@ func c13Run(c *Ctx, cs c13Case) {
 		c13TextMem(c, cs)
 	case "display":
 		c13Display(c, cs)
+	case "pushers":
+		c13Pushers(c, cs)
+	case "walk":
+		c13Walk(c, cs)
+	case "walksession":
+		c13WalkSession(c, cs)
 	}
 }
 
 func runC13(c *Ctx) {
 	c.Rep.Rule = "chunk-list op sequences (burst sizes and --tail values around multiples of 100; old snapshots re-read after later pushes), chunk-cache op sequences, " +
 		"matcher request sequences through Loop and through scan (query edits at both ends, sort toggles, reloads and tail trims that bump the revision, item counts that come back, " +
-		"full 100-line chunks with terms matching <= 20 lines, partitions 1..32, reset pending), both mailbox slots occupied, concurrent pusher with random Reset timing; " +
+		"full 100-line chunks with terms matching <= 20 lines, partitions 1..32, reset pending), both mailbox slots occupied, 1..8 concurrent pushers with random Reset timing; " +
+		"several pushers at once (2..16 goroutines x 1..10000 lines, --header-lines, --tail, snapshots meanwhile; the real directory walker over generated trees; " +
+		"the real fzf walking a tree of 6000..14000 (thorough: 42000) files with a query being searched while loading: numbering of every snapshot, everything pushed arrives once, " +
+		"listing / queries / accepted output against the tree); " +
 		"item text memory (Chars.Lines / Terminal.itemLines on byte- and rune-backed items, the holder of the lines re-slices, appends and assigns), " +
 		"display sessions of the real fzf in a pty (records narrower and wider than the window, non-ASCII, multi-line, tabs, ANSI; wrap/hscroll/ellipsis/tabstop/gap/layout/" +
 		"pointer/marker/preview/header-lines/tail options; slow and fast input; UI actions, resizes, typed and changed queries; every reported item, every listed match " +
@@ -1429,6 +1489,17 @@ func runC13(c *Ctx) {
 		n := c.N(40, 400)
 		for i := 0; i < n; i++ {
 			c13Stress(c, c13GenStress(c.Rng, 40))
+		}
+		// several pushers at once (goroutines, the real walker): the case is announced on stderr so that the parent can
+		// tell which case a race report belongs to
+		for i, nl := 0, c.N(12, 60); i < nl; i++ {
+			cs := c13GenPushers(c.Rng, i%3 == 0)
+			if i%4 == 3 {
+				cs = c13GenWalk(c.Rng)
+			}
+			b, _ := json.Marshal(cs)
+			fmt.Fprintf(os.Stderr, "\nC13CASE %s\n", b)
+			c13Run(c, cs)
 		}
 		return
 	}
@@ -1531,12 +1602,34 @@ func runC13(c *Ctx) {
 	for i := 0; i < ns; i++ {
 		c13Stress(c, c13GenStress(c.Rng, 40))
 	}
+	// several pushers at once: goroutines (small cases in parallel - model and Coq spec on each - then big ones alone, so that
+	// the pushers really overlap), the real walker on generated trees, the real fzf walking a tree
+	loadT0 := time.Now()
+	gen(c.N(60, 1000), func(r *RNG) c13Case { return c13GenPushers(r, false) })
+	for i, nb := 0, c.N(8, 100); i < nb; i++ {
+		c13Run(c, c13GenPushers(c.Rng, true))
+	}
+	for i, nw := 0, c.N(6, 60); i < nw; i++ {
+		c13Run(c, c13GenWalk(c.Rng))
+	}
+	var walkSessions []c13Case
+	for i, nw := 0, c.N(4, 40); i < nw; i++ {
+		walkSessions = append(walkSessions, c13GenWalkSession(c.Rng, c.Thorough()))
+		c13Run(c, walkSessions[i])
+	}
+	c.Rep.mu.Lock()
+	c.Rep.Extra["load_streams_wall_s"] = fmt.Sprintf("%.1f", time.Since(loadT0).Seconds())
+	c.Rep.mu.Unlock()
 	if c.Thorough() {
 		c13RaceChild(c)
 		if n := 200 * c.Scale; len(dispCases) > n {
 			dispCases = dispCases[:n]
 		}
 		c13DisplayRace(c, dispCases)
+		if n := 12 * c.Scale; len(walkSessions) > n {
+			walkSessions = walkSessions[:n]
+		}
+		c13WalkSessionRace(c, walkSessions)
 	}
 }
 
